@@ -1,0 +1,119 @@
+//go:build verif
+
+package ring
+
+// Contracts for the ring buffer (property C26; used by C24). This file is
+// comment-only: it is compiled only under the "verif" build tag and contains
+// no code. The "//@" lines are read by /verif/govc.
+
+//@ spec wrap(b, x) int = x < b.size ? x : x - b.size
+//@ spec at(b, i) byte = b.storage[wrap(b, b.start + i)]
+//@ pred wf(b) = b != nil && 0 <= b.size && len(b.storage) == b.size && 0 <= b.used && b.used <= b.size &&
+//@              0 <= b.start && (b.start < b.size || (b.size == 0 && b.start == 0))
+//@ pred shape(b) = b.size == old(b.size) && b.storage == old(b.storage)
+
+//@ func NewBuffer
+//@   fresh result
+//@   ensures wf(result) && result.used == 0 && result.start == 0
+//@   ensures[size] result.size == (size <= 0 ? 0 : size)
+
+//@ func (*Buffer).Size
+//@   requires b != nil
+//@   ensures result == b.size
+//@   modifies
+
+//@ func (*Buffer).Used
+//@   requires b != nil
+//@   ensures result == b.used
+//@   modifies
+
+//@ func (*Buffer).Free
+//@   requires b != nil
+//@   ensures result == b.size - b.used
+//@   modifies
+
+//@ func (*Buffer).Reset
+//@   requires wf(b)
+//@   ensures wf(b) && shape(b) && b.used == 0 && b.start == 0
+//@   modifies b.start, b.used
+
+//@ func (*Buffer).Write
+//@   requires wf(b)
+//@   requires base(data) != base(b.storage)
+//@   ensures wf(b) && shape(b) && b.start == old(b.start)
+//@   ensures[count] result0 == min(len(data), old(b.size - b.used)) && b.used == old(b.used) + result0
+//@   ensures[keep] forall i in 0..old(b.used) :: at(b, i) == old(at(b, i))
+//@   ensures[append] forall j in 0..result0 :: at(b, old(b.used) + j) == data[j]
+//@   ensures[full] (result1 != nil) <==> (result0 < len(data))
+//@   ensures[errval] result1 == nil || result1 == ErrBufferFull
+//@   modifies b.used, b.storage[*]
+//@   loop 1 modifies b.used, b.storage[*]
+//@   loop 1 invariant wf(b) && shape(b) && b.start == old(b.start)
+//@   loop 1 invariant 0 <= result && result <= len(old(data)) && data == old(data)[result:]
+//@   loop 1 invariant b.used == old(b.used) + result
+//@   loop 1 invariant[keep] forall i in 0..old(b.used) :: at(b, i) == old(at(b, i))
+//@   loop 1 invariant[append] forall j in 0..result :: at(b, old(b.used) + j) == old(data)[j]
+
+//@ func (*Buffer).WriteByte
+//@   requires wf(b)
+//@   ensures wf(b) && shape(b) && b.start == old(b.start)
+//@   ensures[full] (result != nil) <==> old(b.used == b.size)
+//@   ensures[errval] result == nil || result == ErrBufferFull
+//@   ensures[count] b.used == old(b.used) + (result == nil ? 1 : 0)
+//@   ensures[keep] forall i in 0..old(b.used) :: at(b, i) == old(at(b, i))
+//@   ensures[append] result == nil ==> at(b, old(b.used)) == value
+//@   modifies b.used, b.storage[*]
+
+//@ func (*Buffer).Read
+//@   requires wf(b)
+//@   requires base(buffer) != base(b.storage)
+//@   ensures wf(b) && shape(b)
+//@   ensures[emptydst] len(buffer) == 0 ==> result0 == 0 && result1 == nil && b.start == old(b.start)
+//@   ensures[eof] len(buffer) > 0 && old(b.used) == 0 ==> result0 == 0 && result1 == io.EOF
+//@   ensures[count] len(buffer) > 0 && old(b.used) > 0 ==> result0 == min(len(buffer), old(b.used)) && result1 == nil
+//@   ensures[used] b.used == old(b.used) - result0
+//@   ensures[popped] forall j in 0..result0 :: buffer[j] == old(at(b, j))
+//@   ensures[shifted] forall i in 0..b.used :: at(b, i) == old(at(b, i + result0))
+//@   modifies b.start, b.used, buffer[0:len(buffer)]
+//@   loop 1 modifies b.start, b.used, buffer[0:len(buffer)]
+//@   loop 1 invariant wf(b) && shape(b)
+//@   loop 1 invariant 0 <= result && result <= len(old(buffer)) && buffer == old(buffer)[result:]
+//@   loop 1 invariant b.used == old(b.used) - result
+//@   loop 1 invariant b.used > 0 ==> b.start == wrap(b, old(b.start) + result)
+//@   loop 1 invariant[popped] forall j in 0..result :: old(buffer)[j] == old(at(b, j))
+//@   loop 1 invariant[shifted] forall i in 0..b.used :: at(b, i) == old(at(b, i + result))
+
+//@ func (*Buffer).ReadByte
+//@   requires wf(b)
+//@   ensures wf(b) && shape(b)
+//@   ensures[eof] old(b.used) == 0 ==> result1 == io.EOF && result0 == 0 && b.used == 0
+//@   ensures[pop] old(b.used) > 0 ==> result1 == nil && result0 == old(at(b, 0)) && b.used == old(b.used) - 1
+//@   ensures[shifted] forall i in 0..b.used :: at(b, i) == old(at(b, i + 1))
+//@   modifies b.start, b.used
+
+//@ func (*Buffer).ReadNFrom
+//@   requires wf(b)
+//@   ensures wf(b) && shape(b) && b.start == old(b.start)
+//@   ensures[count] 0 <= result0 && b.used == old(b.used) + result0 && result0 <= max(n, 0)
+//@   ensures[keep] forall i in 0..old(b.used) :: at(b, i) == old(at(b, i))
+//@   ensures[full] result0 < n && b.used == b.size ==> result1 != nil
+//@   ensures[eofclear] result0 == n ==> result1 != io.EOF
+//@   ensures[done] result1 == nil ==> result0 == max(n, 0)
+//@   modifies b.used, b.storage[*]
+//@   loop 1 modifies b.used, b.storage[*]
+//@   loop 1 invariant wf(b) && shape(b) && b.start == old(b.start)
+//@   loop 1 invariant 0 <= result && b.used == old(b.used) + result && n == old(n) - result && (n >= 0 || result == 0)
+//@   loop 1 invariant[keep] forall i in 0..old(b.used) :: at(b, i) == old(at(b, i))
+
+//@ func (*Buffer).WriteTo
+//@   requires wf(b)
+//@   ensures wf(b) && shape(b)
+//@   ensures[count] 0 <= result0 && b.used == old(b.used) - result0
+//@   ensures[shifted] forall i in 0..b.used :: at(b, i) == old(at(b, i + result0))
+//@   ensures[done] result1 == nil ==> b.used == 0
+//@   modifies b.start, b.used
+//@   loop 1 modifies b.start, b.used
+//@   loop 1 invariant wf(b) && shape(b)
+//@   loop 1 invariant 0 <= result && b.used == old(b.used) - result
+//@   loop 1 invariant b.used > 0 ==> b.start == wrap(b, old(b.start) + result)
+//@   loop 1 invariant[shifted] forall i in 0..b.used :: at(b, i) == old(at(b, i + result))
